@@ -7,7 +7,7 @@ LEAN_MODULES = ["SCP.C08", "SCP.C08Code"]
 THEOREMS = ["SCP.C08." + t for t in "strReplace_single read_write read_write_no_thousands read_same_number calc_ignores_separators".split()] + \
     ["SCP.C08Code." + t for t in "readLiteral_comma codeLex_comma executeCode_comma executeCode_sep calculateUnitWith_congr calculateUnit_sep convertUnitWith_congr convertUnit_sep exec_sep".split()]
 RULE = ("every evaluable line of the shared generators (arithmetic, money, percent phrases, dates, durations, times, units incl. "
-        "fractional conversions within and across families, based numbers, variables over 2-3 lines) written in the default "
+        "fractional conversions within and across families, a user-registered family whose conversion codes are not plain scalings, based numbers, variables over 2-3 lines) written in the default "
         "convention and rewritten into each of the conventions (',' '.'), ('.' ','), ('.' ''), (',' ''), with thousands "
         "separators inserted into literals that have a fraction; each configuration is reached from the previous case's one by set_decimal_seperator / set_thousand_separator in either order; metamorphic oracle: identical values (bit-exact) under both "
         "configurations; non-trivial = the line contains a literal with a fraction or a unit/currency conversion; distinct = "
@@ -66,8 +66,19 @@ FAM = {u: f for f, us in {"len": ["mm", "cm", "dm", "m", "dam", "hm", "km", "inc
                            "w": ["mg", "cg", "dg", "g", "dag", "hg", "kg", "tonne", "oz", "lb", "stone"], "mem": ["bit", "byte", "kb", "mb", "gb", "tb"]}.items() for u in us}
 
 
+# a user-registered family whose conversion codes are not plain scalings (the amount stands inside parentheses / in a sum)
+REG = [{"op": "dtype_add", "name": "tempv"},
+       {"op": "dtype_item", "name": "tempv", "index": 0, "format": "{value} degf", "parse": ["{NUMBER:value} {TEXT:type:degf}"], "up": "({value} - 32) / 1.8", "down": "{value}", "names": ["degf"]},
+       {"op": "dtype_item", "name": "tempv", "index": 1, "format": "{value} degc", "parse": ["{NUMBER:value} {TEXT:type:degc}"], "up": "{value} + 273.15", "down": "{value} * 1.8 + 32", "names": ["degc"]},
+       {"op": "dtype_item", "name": "tempv", "index": 2, "format": "{value} degk", "parse": ["{NUMBER:value} {TEXT:type:degk}"], "up": "{value}", "down": "{value} - 273.15", "names": ["degk"]}]
+
+
 def gen_line(rng):
     k = rng.random()
+    if k < 0.06:
+        a, b = rng.sample(["degf", "degc", "degk"], 2)
+        v = rng.choice(["98,6", "37,5", "310,15", "-40", "0,5", "1234,5678", L.num(rng)])
+        return rng.choice([f"{v} {a} to {b}", f"t = {v} {a}\nt to {b}", f"{v} {a} to {b} to {a}"])
     if k < 0.35:
         a = rng.choice(UNITS)
         b = rng.choice([u for u in UNITS if FAM[u] == FAM[a]])
@@ -94,7 +105,7 @@ def run(ctx, model_ok):
     marked = base
     base = [render_ints(t, ".") for t in marked]
     ops = [{"op": "exec", "lang": "en", "text": t} for t in base]
-    r0 = C.run_impl(ops)
+    r0 = C.run_impl(REG + ops)[len(REG):]
     ops2, idx = [], []
     for bi, t in enumerate(base):
         for (dec, thou) in rng.sample(CONV, 2 if ctx.quick() else 4):
@@ -104,7 +115,7 @@ def run(ctx, model_ok):
             ops2.append({"op": "exec", "lang": "en", "text": t2})
             idx.append((bi, dec, thou, t2))
     ops2.append({"op": "cfg", "dec": ",", "thou": "."})
-    r2 = C.run_impl(ops2)
+    r2 = C.run_impl(REG + ops2)[len(REG):]
     for j, (bi, dec, thou, t2) in enumerate(idx):
         a, b = r0[bi], r2[2 * j + 1]
         nontrivial = ("," in base[bi]) or (" to " in base[bi]) or ("\x01" in marked[bi])
@@ -128,7 +139,7 @@ def run(ctx, model_ok):
         vals += [rng.uniform(-1e6, 1e6) for _ in range(40)] + [rng.uniform(0, 1) * 10 ** rng.randint(-30, 30) for _ in range(40)]
         code_hypothesis(ctx, vals)
         co = wire.Corr(ctx, compare=("kind", "value"))
-        co.run([{"lang": "en", "text": t2, "cfg": [{"op": "cfg", "dec": dec, "thou": thou}]} for (bi, dec, thou, t2) in idx[:ctx.n(600, 6000)]])
+        co.run([{"lang": "en", "text": t2, "cfg": [{"op": "cfg", "dec": dec, "thou": thou}]} for (bi, dec, thou, t2) in idx[:ctx.n(600, 6000)] if " deg" not in t2])
         ctx.dist.update({"corr:" + k: v for k, v in co.stats.items()})
 
 
